@@ -358,11 +358,14 @@ where
 
         // Updating the inner GuestMemory object here will cause all our vrings to
         // see the new one the next time they call to `atomic_mem.memory()`.
+        let old_mem = (*self.atomic_mem.memory()).clone();
         self.atomic_mem.lock().unwrap().replace(mem);
 
-        self.backend
-            .update_memory(self.atomic_mem.clone())
-            .map_err(|e| VhostUserError::ReqHandlerError(io::Error::other(e)))?;
+        if let Err(e) = self.backend.update_memory(self.atomic_mem.clone()) {
+            // A failed update must leave the previous table intact.
+            self.atomic_mem.lock().unwrap().replace(old_mem);
+            return Err(VhostUserError::ReqHandlerError(io::Error::other(e)));
+        }
         self.mappings = mappings;
 
         Ok(())
@@ -664,11 +667,14 @@ where
             .insert_region(guest_region)
             .map_err(|e| VhostUserError::ReqHandlerError(io::Error::other(e)))?;
 
+        let old_mem = (*self.atomic_mem.memory()).clone();
         self.atomic_mem.lock().unwrap().replace(mem);
 
-        self.backend
-            .update_memory(self.atomic_mem.clone())
-            .map_err(|e| VhostUserError::ReqHandlerError(io::Error::other(e)))?;
+        if let Err(e) = self.backend.update_memory(self.atomic_mem.clone()) {
+            // A failed update must leave the previous table intact.
+            self.atomic_mem.lock().unwrap().replace(old_mem);
+            return Err(VhostUserError::ReqHandlerError(io::Error::other(e)));
+        }
 
         self.mappings.push(addr_mapping);
 
@@ -682,11 +688,14 @@ where
             .remove_region(GuestAddress(region.guest_phys_addr), region.memory_size)
             .map_err(|e| VhostUserError::ReqHandlerError(io::Error::other(e)))?;
 
+        let old_mem = (*self.atomic_mem.memory()).clone();
         self.atomic_mem.lock().unwrap().replace(mem);
 
-        self.backend
-            .update_memory(self.atomic_mem.clone())
-            .map_err(|e| VhostUserError::ReqHandlerError(io::Error::other(e)))?;
+        if let Err(e) = self.backend.update_memory(self.atomic_mem.clone()) {
+            // A failed update must leave the previous table intact.
+            self.atomic_mem.lock().unwrap().replace(old_mem);
+            return Err(VhostUserError::ReqHandlerError(io::Error::other(e)));
+        }
 
         self.mappings
             .retain(|mapping| mapping.gpa_base != region.guest_phys_addr);
